@@ -139,9 +139,11 @@ def features(a):
             fs = list(strings_of(c[2][0])) if c[2] else []
             if any("\\{" in s or "\\}" in s for s in fs) or any(_non_plain_braces(s) for s in fs):
                 f.append("format-python-str-format")
-        if c[1] in ("MathAdd", "ArrayPartition", "ArrayRange", "ArrayGetItem", "MathRandom") and any(x == ("lit", "true") or x == ("lit", "false") or x == ("path", "$.t") for x in c[2]):
-            f.append("intrinsic-bool-as-int")
-        if c[1] == "ArrayContains" and any(x in (("lit", "true"), ("lit", "false"), ("path", "$.t"), ("path", "$.mixed"), ("lit", "1"), ("lit", "0")) for x in c[2]):
+        if c[1] in ("MathAdd", "ArrayPartition", "ArrayRange", "ArrayGetItem", "MathRandom") and any(isinstance(_ref_value(x), bool) for x in c[2]):
+            f.append("intrinsic-bool-as-int")       # a boolean where an integer is required
+        if c[1] == "JsonMerge" and len(c[2]) == 3 and I.is_int(_ref_value(c[2][2])) and _ref_value(c[2][2]) == 0:
+            f.append("intrinsic-bool-as-int")       # ... and the integer 0 where the boolean false is required
+        if c[1] == "ArrayContains" and len(c[2]) == 2 and _bool_number_confusion(_ref_value(c[2][0]), _ref_value(c[2][1])):
             f.append("arraycontains-python-equality")
         if c[1] == "ArrayUnique":
             f.append("arrayunique-set")
@@ -154,6 +156,39 @@ def features(a):
         if c[1] in ("ArrayPartition", "ArrayRange", "ArrayGetItem", "MathAdd") and any(x[0] == "lit" and "." in x[1] for x in c[2]):
             f.append("intrinsic-float-as-int")
     return f
+
+
+_NOVALUE = object()
+
+
+def _ref_value(ast):
+    """The reference's value of one argument (or _NOVALUE when it fails / is unspecified)."""
+    try:
+        v = I.ev(_to_ref_ast(ast), DATA, CTX)
+        return str(v) if isinstance(v, I.FmtStr) else v
+    except Exception:
+        return _NOVALUE
+
+
+def _to_ref_ast(a):
+    if a[0] == "str":
+        if a[1] and not isinstance(a[1][0], str):
+            return a
+        return I.parse_arg(render(a), 0)[0]
+    if a[0] == "call":
+        return ("call", a[1], [_to_ref_ast(x) for x in a[2]])
+    return a
+
+
+def _bool_number_confusion(hay, needle):
+    """Python's == equates True with 1 and False with 0"""
+    if not isinstance(hay, list):
+        return False
+    if isinstance(needle, bool):
+        return any(R.is_num(x) and x == needle for x in hay)
+    if R.is_num(needle):
+        return any(isinstance(x, bool) and x == needle for x in hay)
+    return False
 
 
 def _non_plain_braces(s):
@@ -320,6 +355,8 @@ def _array_string_dollar(t):
 def compare_state(ctx, expr_ast):
     """Error names through a real Pass state: IntrinsicFailure for ill-formed calls, a path failure for bad paths."""
     expr = render(expr_ast)
+    if "$$" in expr:
+        return          # the real execution's context object differs from the function-level one
     try:
         exp = ref_eval(expr)
     except (I.Unspec, R.Unspecified):
@@ -443,7 +480,7 @@ WITNESSES = {
     "intrinsic-bool-as-int": "States.MathAdd(true, 1)",
     "arrayunique-set": "States.ArrayUnique($.nest)",
     "stringsplit-regex-metachar": "States.StringSplit('a^b', '^')",
-    "arraycontains-python-equality": "States.ArrayContains($.mixed, true)",
+    "arraycontains-python-equality": "States.ArrayContains($.arr, true)",
 }
 
 
